@@ -59,6 +59,9 @@ type airObs struct {
 	Keyrings  map[int][2]string // every machine's polynomial and share at the end
 	Ready     bool
 	Detail    string
+	// Republished: "" when every result file the replay after a restart wrote again publishes
+	// what the machine published for that operation before (else the first difference)
+	Republished string
 }
 
 type airRun struct {
@@ -71,6 +74,26 @@ type airRun struct {
 	round   string
 	obs     airObs
 	mu      sync.Mutex
+	// what P's machine published per answered operation (see published()), and the operations
+	pub map[string]string
+	ops map[string]*types.Operation
+}
+
+// published renders what a result file carries to the board: event, and per message its event
+// and addressee, plus the payload where it is deterministic (commitments, announced key);
+// ciphertexts and signatures are randomised.
+func published(op *types.Operation, res *types.Operation) string {
+	var parts []string
+	for _, m := range res.ResultMsgs {
+		x := m.Event + "->" + m.RecipientAddr
+		switch fsm.State(op.Type) {
+		case dpf.StateDkgCommitsAwaitConfirmations, dpf.StateDkgMasterKeyAwaitConfirmations:
+			x += ":" + string(m.Data)
+		}
+		parts = append(parts, x)
+	}
+	sort.Strings(parts)
+	return fmt.Sprintf("%s [%d messages] %s", res.Event, len(res.ResultMsgs), strings.Join(parts, " | "))
 }
 
 func (a *airRun) restartMachine(r *kit.Run) error {
@@ -84,7 +107,34 @@ func (a *airRun) restartMachine(r *kit.Run) error {
 	if err := air.M.ReplayOperationsLog(a.round); err != nil && !strings.Contains(err.Error(), "operation log not found") {
 		a.obs.Detail = "replay failed: " + err.Error()
 	}
+	// "it republishes the same commitments": the replay writes the result files of the logged
+	// operations again - the operator may carry any of them to the node
+	ids := make([]string, 0, len(a.pub))
+	for id := range a.pub {
+		ids = append(ids, id)
+	}
+	sort.Strings(ids)
+	for _, id := range ids {
+		bz, err := os.ReadFile(air.ResultFile(a.ops[id]))
+		if err != nil || len(bz) == 0 {
+			continue
+		}
+		var again types.Operation
+		if json.Unmarshal(bz, &again) != nil {
+			continue
+		}
+		if got := published(a.ops[id], &again); got != a.pub[id] && a.obs.Republished == "" {
+			a.obs.Republished = fmt.Sprintf("operation %s: before the stop %q, after the replay %q", a.ops[id].Type, clip(a.pub[id], 160), clip(got, 160))
+		}
+	}
 	return nil
+}
+
+func clip(s string, n int) string {
+	if len(s) > n {
+		return s[:n] + "..."
+	}
+	return s
 }
 
 func (a *airRun) operateP(r *kit.Run, op *types.Operation) error {
@@ -119,6 +169,15 @@ func (a *airRun) operateP(r *kit.Run, op *types.Operation) error {
 		return fmt.Errorf("airgapped: %w", err)
 	}
 	a.record(op, res)
+	if !op.IsSigningState() {
+		if a.pub == nil {
+			a.pub, a.ops = map[string]string{}, map[string]*types.Operation{}
+		}
+		if _, seen := a.pub[op.ID]; !seen {
+			cp := *op
+			a.pub[op.ID], a.ops[op.ID] = published(op, res), &cp
+		}
+	}
 	if err := nd.SubmitResult(res); err != nil {
 		return err
 	}
@@ -377,6 +436,9 @@ func cmpAir(r *kit.Run, nt ntPair, p int, label string, ref, got airObs) {
 		if x.a != x.b {
 			r.Violation("C12/differs/"+x.name+"/"+key, fmt.Sprintf("n=%d t=%d participant %d, %s: %s differs from the machine that never stopped", nt.n, nt.t, p, label, x.name), trace)
 		}
+	}
+	if got.Republished != "" {
+		r.Violation("C12/differs/republished-result-file/"+key, fmt.Sprintf("n=%d t=%d participant %d, %s: a result file written again by the replay publishes something else than before the stop: %s", nt.n, nt.t, p, label, got.Republished), trace)
 	}
 	for i, kr := range ref.Keyrings {
 		if got.Keyrings[i] != kr {
